@@ -45,9 +45,20 @@ def _elements(n, e0, e1, e2, e3):
     return [ELEMS[e] for e in es]
 
 
-def _run(n, e0, e1, e2, e3, pre, raise_first, prefix, api, store):
+SRC_TYPED = (
+    "@m.memento_function(version='1')\n"
+    "def f(p, x):\n"
+    "    _trace.append((p, type(x).__name__, x))\n"
+    "    if x is False:\n"
+    "        raise ValueError('bad %r' % (x,))\n"
+    "    return '%s:%r' % (type(x).__name__, x)\n"
+)
+ELEMS_TYPED = [1, 1.0, True, False, 0]  # equal and equally hashed for Python (1 == 1.0 == True, 0 == False), distinct calls for memento
+
+
+def _run(n, e0, e1, e2, e3, pre, raise_first, prefix, api, store, ELEMS=ELEMS, SRC=SRC, failing=3):
     n = pick(n, 5) if not isinstance(n, int) else n
-    es = [pick(e, 3) for e in [e0, e1, e2, e3][:n]]
+    es = [pick(e, len(ELEMS)) for e in [e0, e1, e2, e3][:n]]
     xs = [ELEMS[e] for e in es]
     pre = pick(pre, 8)
     rf = True if raise_first else False
@@ -55,8 +66,10 @@ def _run(n, e0, e1, e2, e3, pre, raise_first, prefix, api, store):
     with concrete_region():
         if len(set(xs)) < len(xs):
             cover("duplicates")
-        if 3 in xs:
+        if any(x is failing or (x == failing and type(x) is type(failing)) for x in xs):
             cover("failing-element")
+        if len({(type(x), x) for x in xs}) > len(set(xs)):
+            cover("python-equal-but-distinct-elements")
         if n == 0:
             cover("empty-batch")
         results = []
@@ -101,10 +114,11 @@ def _run(n, e0, e1, e2, e3, pre, raise_first, prefix, api, store):
                         else:
                             out = ("value", {x: s for x, s in zip(xs, singles)})
                 ran = list(prog.trace)[n0:]
-                results.append((out, sorted(ran), _store_state(f, sb.storage())))
+                results.append((out, sorted(ran, key=repr), _store_state(f, sb.storage())))
                 if mode == "batch":
                     check("each-distinct-element-runs-at-most-once", len(ran) == len(set(ran)), ran)
-                    check("memoized-elements-do-not-run", all(x not in pre_xs for (_p, x) in ran), (ran, pre_xs))
+                    pre_keys = [(type(x).__name__, x) for x in pre_xs]
+                    check("memoized-elements-do-not-run", all((type(t[-1]).__name__, t[-1]) not in pre_keys for t in ran), (ran, pre_xs))
             finally:
                 prog.close()
                 sb.close()
@@ -143,3 +157,18 @@ def batch(e0: int, e1: int, e2: int, e3: int, pre: int, raise_first: bool, prefi
 )
 def batch_n4(e0: int, e1: int, e2: int, e3: int, pre: int, raise_first: bool, prefix: bool, api: str, store: str):
     _run(4, e0, e1, e2, e3, pre, raise_first, prefix, api, store)
+
+
+@obligation(
+    "C15.batch_equal_values",
+    covers=("python-equal-but-distinct-elements", "failing-element", "some-memoized-before"),
+    split={"store": ["memory", "fs+cache:1"], "n": [2, 3], "e0": [0, 1, 2, 3, 4]},
+    bounds="batches of length 2..3 over {1, 1.0, True, failing False, 0} - values that Python treats as equal (and hashes equally) but "
+           "that are distinct calls with type-dependent results - x 8 pre-memoized subsets (of the first three) x raise_first_exception x "
+           "partial prefix, call_batch, {memory, fs+cache}; oracle = element-wise evaluation",
+    variables="choice: elements, pre-memoized subset, raise_first, prefix",
+    budget_s={"quick": 170, "thorough": 600},
+    choice_vars=7,
+)
+def batch_equal_values(e0: int, e1: int, e2: int, e3: int, pre: int, raise_first: bool, prefix: bool, store: str, n: int):
+    _run(n, e0, e1, e2, e3, pre, raise_first, prefix, "call_batch", store, ELEMS=ELEMS_TYPED, SRC=SRC_TYPED, failing=False)
